@@ -107,9 +107,25 @@ POL = RequestPolicy(rsa_approved_key_sizes=[1024])
 reqA, reqB = make_ksr("version-A"), make_ksr("version-B")
 reqB["bundles"][0]["inc"] += D(seconds=0)
 xmlA, xmlB = ksrxml.render_ksr(reqA).encode(), ksrxml.render_ksr(reqB).encode()
+
+
+def steer_digest(doc: bytes, prefix: str) -> bytes:
+    """the same document with a prolog comment chosen so that its SHA-256 (hex) starts with the given digits -
+    a digest with leading zeros must be shown with them"""
+    head, sep, tail = doc.partition(b"\n")
+    n = 0
+    while True:
+        cand = head + sep + f"<!-- pad {n} -->\n".encode() + tail
+        if hashlib.sha256(cand).hexdigest().startswith(prefix):
+            return cand
+        n += 1
+
+
+xmlA, xmlB = steer_digest(xmlA, "0"), steer_digest(xmlB, "00")
 schema9 = {i: {"publish": ["ksk_current"], "sign": ["ksk_current"], "revoke": []} for i in range(1, 10)}
 skrA = ksrxml.render_skr(skrgen.simulate_skr(reqA, schema9, KS, ksrxml.default_zsk_policy())).encode()
 skrB = ksrxml.render_skr(skrgen.simulate_skr(reqB, schema9, KS, ksrxml.default_zsk_policy())).encode()
+skrA, skrB = steer_digest(skrA, "00"), steer_digest(skrB, "0")
 
 
 class Flipper:
@@ -261,8 +277,18 @@ for trial in range(2 * SCALE):
         fail("ksrsigner", "logged digest of the written SKR is not the digest of the bytes on disk")
 
 # ------------------------------------------------------------------ 4. stand-alone tool and helper functions print the same values
-for i in range(10 * SCALE):
-    data = bytes(R.randrange(256) for _ in range(R.choice([0, 1, 100, 5000])))
+def blob_with_digest(prefix):
+    n = 0
+    while True:
+        b = f"blob {n}".encode()
+        if hashlib.sha256(b).hexdigest().startswith(prefix):
+            return b
+        n += 1
+
+
+BLOBS = [blob_with_digest("0"), blob_with_digest("00"), blob_with_digest("000"), blob_with_digest("f")]
+for i in range(10 * SCALE + len(BLOBS)):
+    data = bytes(R.randrange(256) for _ in range(R.choice([0, 1, 100, 5000]))) if i >= len(BLOBS) else BLOBS[i]
     path = os.path.join(tmpd, "blob.bin")
     with open(path, "wb") as f:
         f.write(data)
